@@ -5,7 +5,7 @@ import os
 
 VERIF = os.path.dirname(os.path.dirname(os.path.abspath(__file__)))
 
-TECH = 'CBMC 6.11 code contracts on the real C source (goto-instrument --dfcc: enforce-contract / replace-call-with-contract / apply-loop-contracts), SAT back end'
+TECH = 'CBMC 6.11 code contracts on the real C source (goto-instrument --dfcc: enforce-contract / replace-call-with-contract / apply-loop-contracts), SAT back end (CaDiCaL as built into cbmc)'
 
 CLAIMED = {
     'C20': dict(
